@@ -202,6 +202,10 @@ pub fn check_trace(trace: &str, nsrc: usize) -> Result<(u64, usize, bool), Strin
         }
     }
     if !ended {
+        // when no file is processable (e.g. only empty files) the coordinator never enters its loop: nothing to check
+        if arrival.is_empty() && printed.is_empty() {
+            return Ok((0, timeouts, false));
+        }
         return Err("trace has no end-of-loop event".into());
     }
     for (pid, n) in &recv_m {
